@@ -5,7 +5,7 @@
 # passes without it. Prints one summary line.
 set -u
 id=$1; v=$2
-wt=/tmp/seed/$id
+wt=${SEEDBASE:-/tmp/seed}/$id
 sd=$wt/seed_out/$v
 export GOFLAGS= GOPROXY=off GOSUMDB=off GOTOOLCHAIN=local; unset GOWORK
 cd $wt || exit 2
@@ -14,25 +14,25 @@ rm -f libvore/seed_demo_test.go libvore/files/seed_demo_test.go
 [ -f seed_out/go.mod ] || echo "module seedout" > seed_out/go.mod
 run_demo() {
   if [ -f $sd/demo.sh ]; then
-    (cd $wt && sh $sd/demo.sh >/tmp/seed/demo_$id$v.log 2>&1); return $?
+    (cd $wt && sh $sd/demo.sh >/tmp/demo_$id$v.log 2>&1); return $?
   fi
   pkgdir=libvore
   grep -q '^package files' $sd/demo_test.go && pkgdir=libvore/files
   cp $sd/demo_test.go $wt/$pkgdir/seed_demo_test.go
   flags=""
   [ "$id" = C19 ] && flags="-race"
-  (cd $wt/$pkgdir && timeout 300 go test $flags -vet=off -count=1 -run TestSeedDemo . >/tmp/seed/demo_$id$v.log 2>&1); rc=$?
+  (cd $wt/$pkgdir && timeout 300 go test $flags -vet=off -count=1 -run TestSeedDemo . >/tmp/demo_$id$v.log 2>&1); rc=$?
   rm -f $wt/$pkgdir/seed_demo_test.go
   return $rc
 }
 run_demo; clean_rc=$?
-if ! git apply $sd/patch.diff 2>/tmp/seed/apply_$id$v.log; then echo "$id$v: PATCH DOES NOT APPLY"; exit 1; fi
+if ! git apply $sd/patch.diff 2>/tmp/apply_$id$v.log; then echo "$id$v: PATCH DOES NOT APPLY"; exit 1; fi
 suite=ok
 for m in . libvore libvore/algo libvore/ast libvore/bytecode libvore/ds libvore/engine libvore/files libvore/testutils; do
-  (cd $wt/$m && timeout 600 go test -vet=off -count=1 ./... >/tmp/seed/suite_$id$v.log 2>&1) || suite=FAIL
+  (cd $wt/$m && timeout 600 go test -vet=off -count=1 ./... >/tmp/suite_$id$v.log 2>&1) || suite=FAIL
 done
-(cd $wt && go build -o /tmp/seed/vore_$id$v . >/dev/null 2>&1) || suite=BUILDFAIL
-rm -f /tmp/seed/vore_$id$v
+(cd $wt && go build -o /tmp/vore_$id$v . >/dev/null 2>&1) || suite=BUILDFAIL
+rm -f /tmp/vore_$id$v
 run_demo; patched_rc=$?
 git checkout -q -- . ; git clean -fdq -e seed_out
 echo "$id$v: clean_demo_rc=$clean_rc patched_suite=$suite patched_demo_rc=$patched_rc"
